@@ -52,6 +52,10 @@ CHECKS = {
             "The fault model (file ends after k bytes) is enumerated over all offsets of the small samples and over block/field/table boundaries plus a stride of the large ones; each "
             "prefix goes through Load, the query battery, copy, both saves, reload and destruction in a child process whose death (sanitizer abort, signal, assertion, CPU limit) is "
             "attributed to the journalled fault and phase.", "3/C16"),
+    "C17": ("exploration", "runtime monitor: label round-trip oracle (set -> get under the documented renumbering) plus range-partition invariants on the stored segment table, bounded-exhaustive for small meshes and random beyond, incl. vertex deletion and reload",
+            "Every label list over {-1,0,1,2} for up to 4 (5) triangles in three segment structures, random segmentations with permuted ids/sub-segments/unassigned labels, and "
+            "partition assignments in OB/FO3/SK/SSE are set through the API and read back after set, set(get()), save+reload and vertex deletion; labels must be preserved under the "
+            "renumbering and the stored ranges must partition the triangles.", "3/C17"),
     "C18": ("exploration", "bounded-exhaustive differential testing against naive reference models under ASan/UBSan/libstdc++ assertions",
             "Every sorted index subset of vectors up to length 7 (10 thorough) for all index types used by callers, all small triangle lists x collapse maps, all strips over a "
             "4-symbol alphabet up to length 7 (8), plus random vectors at the 16-bit limits are pushed through the real templates and compared with naive models; out-of-container "
